@@ -28,18 +28,23 @@ def tag_decoder(b):
     return json.loads(b[3:])
 
 
+class PeerValueFailure(PeerFailure, ValueError):
+    """The same, as a ValueError (what a decoder that cannot read its schema yet, or a strict encoder, raises)."""
+
+
 class Failing:
     """Wraps a peer function; raises PeerFailure on the k-th call (1-based)."""
 
-    def __init__(self, fn, k: int):
+    def __init__(self, fn, k: int, flavour: str = "runtime"):
         self.fn = fn
         self.k = k
         self.calls = 0
+        self.flavour = flavour
 
     def __call__(self, v):
         self.calls += 1
         if self.calls == self.k:
-            raise PeerFailure(f"peer failed on call {self.k}")
+            raise (PeerValueFailure if self.flavour == "value" else PeerFailure)(f"peer failed on call {self.k}")
         return self.fn(v)
 
 
